@@ -133,6 +133,10 @@ def run_verus_once(unit_path, canary=False, seed=None):
         res.update(status='undecided', reason=f'construct outside the Verus dialect: {first}')
         return res
     res['failures'] = parse_failures(stderr, em, text.split('\n'))
+    orphans = [f for f in res['failures'] if f['kind'] != 'other' and not f.get('fn')]
+    if orphans:
+        res.update(status='undecided', reason='a verifier failure could not be attributed to a function: ' + orphans[0]['raw'].split('\n')[0])
+        return res
     others = [f for f in res['failures'] if f['kind'] == 'other']
     if others:
         res.update(status='undecided', reason='verifier error that is not a proof obligation: ' + others[0]['raw'].split('\n')[0])
@@ -260,6 +264,13 @@ def parse_failures(stderr, em, lines):
                     break
             site = prim
             fn = em.origin[site - 1]['fn'] if site and site <= len(em.origin) else None
+            if fn is None:
+                # the call site is inside a macro definition: use the invocation site reported in the same block
+                for ln in b[1:]:
+                    mm = re.match(r'\s*(\d+)\s*\|', ln)
+                    if mm and int(mm.group(1)) <= len(em.origin) and em.origin[int(mm.group(1)) - 1]['fn']:
+                        fn = em.origin[int(mm.group(1)) - 1]['fn']
+                        site = int(mm.group(1))
             callee = em.origin[cl - 1]['fn'] if cl and cl <= len(em.origin) else None
             out.append({'kind': kind, 'fn': fn, 'line': site, 'labels': [], 'props': [],
                         'callee': callee, 'clause': lines[cl - 1].strip() if cl else None,
@@ -269,6 +280,11 @@ def parse_failures(stderr, em, lines):
         fn = None
         if prim and prim <= len(em.origin):
             fn = em.origin[prim - 1]['fn']
+            if fn is None:
+                for ln in b[1:]:
+                    mm = re.match(r'\s*(\d+)\s*\|', ln)
+                    if mm and int(mm.group(1)) <= len(em.origin) and em.origin[int(mm.group(1)) - 1]['fn']:
+                        fn = em.origin[int(mm.group(1)) - 1]['fn']
             cand = range(prim, clause_hi + 1)
             inside = [k for k in expand_lines if prim <= k <= clause_hi and k <= len(em.origin) and em.origin[k - 1]['label']]
             if inside:
@@ -463,6 +479,12 @@ def main(argv):
             fns.add(short_fn(o['fn']))
         for k, v in failed_ids(r, prop).items():
             failed.setdefault(k, []).extend(dict(f, unit=r['unit']) for f in v)
+        # a function with an unlabelled failure (invariant, assertion, callee precondition, overflow) has no valid
+        # proof: its other clauses were only shown *assuming* the failed condition -> not discharged for `prop`
+        tainted = {f['fn'] for f in r.get('failures', []) if not f['labels'] and f['kind'] != 'recommends' and f['fn']} if r.get('status') == 'failed' else set()
+        if tainted and any(o['fn'] in tainted for o in obs):
+            soft_undecided.append({'unit': r['unit'], 'reason': 'an unlabelled obligation (invariant / assertion / callee precondition / overflow) fails in '
+                                   + ', '.join(short_fn(x) for x in sorted(tainted)) + '; the clauses of this property there are proved only under that failed assumption'})
         ufn = set(r.get('undecided_fns', []))
         if ufn and any(o['fn'] in ufn for o in obs):
             soft_undecided.append({'unit': r['unit'], 'reason': 'solver resource limit exceeded in ' + ', '.join(short_fn(x) for x in ufn)})
